@@ -57,6 +57,19 @@ def _run(args):
         return cfg, [{"k": "harness-timeout", "d": ""}]
 
 
+def f11_witness():
+    """Pinned witness (protocol mode): construct A, construct B, run A - compared with A running alone."""
+    from harness.checks.c20 import PROTOCOLS, PARTY, one_run
+    from harness.fan import make, quiet
+    quiet()
+    a, b = PROTOCOLS["ping-pong"], PROTOCOLS["two-senders"]
+    alone = one_run(a, [1, 1, 1, 1, 1], None)
+    bspec = b["spec"] + "".join(PARTY % (p, m) for p, m in b["parties"].items())
+    keep = []
+    after = one_run(a, [1, 1, 1, 1, 1], None, after_construct=lambda: keep.append(make(bspec)))
+    return (alone["kind"], alone["hist"]) != (after["kind"], after["hist"]), alone["kind"], after["kind"]
+
+
 def run(tier, seed):
     rep = Report(PROP, tier, seed, "model_checking")
     r = run_tlc("Globals", "Globals_scoped", workers=1, timeout=300)
@@ -117,6 +130,9 @@ def run(tier, seed):
         return ("hist:%d:%s" % (pi, ops),
                 "pair %d, history %s: B's event stream differs from B running alone in a fresh process at its event %d (%s vs %s)\nA:\n%sB:\n%s"
                 % (pi, ops, b["at"], b["a"], b["b"], pairs[pi][0], pairs[pi][1]), {"A": pairs[pi][0], "B": pairs[pi][1], "history": h})
+    differs, k1, k2 = f11_witness()
+    if differs:
+        rep.violation("witness:F11:io-environment", "protocol mode: A alone ends %s; with a second protocol spec constructed before A's run it ends %s" % (k1, k2), {})
     n = lockstep(rep, pairs_out, describe)
     if n < 200:
         raise common.Machinery("only %d aligned events" % n)
